@@ -249,9 +249,18 @@ def _uniq(regs):
     return outl
 
 
+def _twins(draw, regs):
+    """the same callback registered again with the same port and channel values but other masks (removal must tell them apart)"""
+    outl = list(regs)
+    for r in regs:
+        if len(outl) < 10 and draw(st.sampled_from([False, False, True])):
+            outl.append(_norm(dict(r, via='header', pmask=draw(_pmask), cmask=draw(_cmask))))
+    return _uniq(outl)
+
+
 @st.composite
 def _case(draw):
-    regs = _uniq(draw(st.lists(_reg(), min_size=1, max_size=8)))
+    regs = _twins(draw, _uniq(draw(st.lists(_reg(), min_size=1, max_size=8))))
     # headers biased to hit the registered ports
     hdr = st.one_of(st.integers(0, 255),
                     st.sampled_from(regs).flatmap(lambda r: st.integers(0, 15).map(
@@ -264,7 +273,7 @@ def _case(draw):
         b = {'cb': draw(st.sampled_from(regs))['cb'], 'packet': draw(st.integers(0, len(packets) - 1)), 'action': action}
         if action == 'remove':
             b['other'] = draw(st.booleans())
-            b['target'] = draw(st.integers(0, 7))
+            b['target'] = draw(st.integers(0, 9))
         if action == 'add':
             b['reg'] = draw(_reg())
         beh.append(b)
